@@ -345,7 +345,12 @@ func (ri *runInfo) classifyCond(v ssa.Value) condClass {
 }
 
 // pureHelper: no stores (except to locals), no calls except builtins.
-func pureHelper(fn *ssa.Function) bool {
+func pureHelper(fn *ssa.Function) bool { return pureHelperD(fn, 0) }
+
+func pureHelperD(fn *ssa.Function, depth int) bool {
+	if depth > 3 {
+		return false
+	}
 	for _, b := range fn.Blocks {
 		for _, in := range b.Instrs {
 			switch x := in.(type) {
@@ -354,9 +359,13 @@ func pureHelper(fn *ssa.Function) bool {
 					return false
 				}
 			case ssa.CallInstruction:
-				if _, ok := x.Common().Value.(*ssa.Builtin); !ok {
-					return false
+				if _, ok := x.Common().Value.(*ssa.Builtin); ok {
+					continue
 				}
+				if cal := x.Common().StaticCallee(); cal != nil && load.InModule(cal) && cal.Blocks != nil && cal != fn && pureHelperD(cal, depth+1) {
+					continue
+				}
+				return false
 			case *ssa.MapUpdate, *ssa.Send, *ssa.Go, *ssa.Defer, *ssa.Panic:
 				return false
 			}
@@ -618,17 +627,29 @@ func c08(cx *Ctx, r *ev.Report) {
 	}
 	pos := cx.P.Pos(ri.run.Pos())
 	res := ri.explore()
-	ruleA := "R-AUTOMATON(Run): every path of Run's CFG, projected onto {H0, C?, Step, B?, H?, return}, lies in  H0 (C?f S B?f H?f)* ( C?t Rctx | C?f S B?t Rbp | C?f S B?f H?t Rnil )"
-	if len(res.violations) > 0 {
+	ruleA := "RUN-ITERATION: one iteration of Run's loop (summarised by value: helpers in line, Step opaque and havocking the CPU) Steps unless it returns the context's error - a decision independent of CPU state -, then returns ErrBreakPoint iff the Step left PC in BreakPoints, else nil iff the Step executed HALT, else continues; the CPU is touched by Step only and HALT is cleared once before the loop.  Fallback when the summary is undecided: R-AUTOMATON(Run), inclusion of the CFG projected on {H0, C?, Step, B?, H?, return} in  H0 (C?f S B?f H?f)* ( C?t Rctx | C?f S B?t Rbp | C?f S B?f H?t Rnil )"
+	sem := cx.runSem()
+	semantic := sem.err == nil
+	r.Analysed["run_decided_by"] = map[bool]string{true: "value summary of the loop iteration", false: "CFG automaton (summary undecided: " + fmt.Sprint(sem.err) + ")"}[semantic]
+	switch {
+	case semantic && len(sem.violations) > 0:
+		r.Violate("C08/run-automaton/func=(*CPU).Run", ruleA, pos, sem.violations...)
+	case semantic:
+		r.Hold("C08/run-automaton/func=(*CPU).Run", ruleA, pos, "summary-equality")
+	case len(res.violations) > 0:
 		sort.Strings(res.violations)
 		r.Violate("C08/run-automaton/func=(*CPU).Run", ruleA, pos, res.violations...)
-	} else {
+	default:
 		r.Hold("C08/run-automaton/func=(*CPU).Run", ruleA, pos, "shape")
 	}
-	// all three accepting exits exist (otherwise the language is matched vacuously)
-	for _, want := range []string{"cancelled->ctxerr", "breakpoint-hit->ErrBreakPoint", "halted->nil"} {
-		key := "C08/run-exits/exit=" + want
-		r.Check(res.accepted[want] > 0, key, "RUN-EXITS: Run has a return for each stop condition", pos, "shape", "no return of kind "+want+" found in Run")
+	// all three exits exist (otherwise the rule is matched vacuously)
+	for _, want := range [][2]string{{"cancelled->ctxerr", retCtx}, {"breakpoint-hit->ErrBreakPoint", retBP}, {"halted->nil", retNil}} {
+		key := "C08/run-exits/exit=" + want[0]
+		have := res.accepted[want[0]] > 0
+		if semantic {
+			have = sem.returns[want[1]] > 0
+		}
+		r.Check(have, key, "RUN-EXITS: Run has a return for each stop condition", pos, "shape", "no return of kind "+want[0]+" found in Run")
 	}
 	// fresh reads
 	ruleF := "FRESH-READS: the loads of CPU.PC, CPU.BreakPoints and CPU.HALT that feed the stop tests execute after the Step of the same iteration; CPU.Interrupt is not read or cached by Run"
@@ -658,8 +679,19 @@ func c08(cx *Ctx, r *ev.Report) {
 		}
 	}
 	sort.Strings(det)
-	r.Check(len(det) == 0, "C08/fresh-reads/func=(*CPU).Run", ruleF, pos, "shape", det...)
-	r.AddFloor("stop_test_loads", len(res.usedLoads), 2)
+	if semantic {
+		// the summary compares the lookup key with PostStep(PC) and the HALT test with PostStep(HALT): fresh by value
+		var d2 []string
+		for _, d := range det {
+			if strings.Contains(d, "CPU.Interrupt") {
+				d2 = append(d2, d)
+			}
+		}
+		r.Check(len(d2) == 0, "C08/fresh-reads/func=(*CPU).Run", ruleF+" (by value: the breakpoint key is PostStep(PC), the halt test reads PostStep(HALT))", pos, "summary-equality", d2...)
+	} else {
+		r.Check(len(det) == 0, "C08/fresh-reads/func=(*CPU).Run", ruleF, pos, "shape", det...)
+		r.AddFloor("stop_test_loads", len(res.usedLoads), 2)
+	}
 	// only Step touches the CPU
 	ruleO := "ONLY-STEP: Run and its closures use the receiver only to clear HALT on entry, to read PC/BreakPoints/HALT, and as the receiver of Step"
 	det = nil
